@@ -157,49 +157,49 @@ func (x *Exec) sameVal(a, b Value) *Term {
 }
 
 // freeze marks every cell and map reachable from v as frozen (shared between paths)
-func freeze(v Value, seen map[interface{}]bool) {
+func (x *Exec) freeze(v Value, seen map[interface{}]bool) {
 	switch u := v.(type) {
 	case Ptr:
 		if u.o != nil {
-			freezeObj(u.o, seen)
+			x.freezeObj(u.o, seen)
 		}
 	case SliceV:
 		if u.a != nil {
-			freezeObj(u.a, seen)
+			x.freezeObj(u.a, seen)
 		}
 	case StructV:
 		for _, f := range u.f {
-			freeze(f, seen)
+			x.freeze(f, seen)
 		}
 	case ArrayV:
 		for _, f := range u.e {
-			freeze(f, seen)
+			x.freeze(f, seen)
 		}
 	case Tuple:
 		for _, f := range u {
-			freeze(f, seen)
+			x.freeze(f, seen)
 		}
 	case Iface:
-		freeze(u.v, seen)
+		x.freeze(u.v, seen)
 	case *MapObj:
 		if u != nil && !seen[u] {
 			seen[u] = true
 			u.frozen = true
 			for i := range u.keys {
-				freeze(u.keys[i], seen)
-				freeze(u.vals[i], seen)
+				x.freeze(u.keys[i], seen)
+				x.freeze(u.vals[i], seen)
 			}
 		}
 	case *Closure:
 		if u != nil {
 			for _, b := range u.bind {
-				freeze(b, seen)
+				x.freeze(b, seen)
 			}
 		}
 	}
 }
 
-func freezeObj(o Obj, seen map[interface{}]bool) {
+func (x *Exec) freezeObj(o Obj, seen map[interface{}]bool) {
 	if seen[o] {
 		return
 	}
@@ -210,14 +210,15 @@ func freezeObj(o Obj, seen map[interface{}]bool) {
 			return // native handles (compiled regexps) are internally synchronised and never stored through
 		}
 		o.frozen = true
-		freeze(o.v, seen)
+		o.owner = x
+		x.freeze(o.v, seen)
 	case *StructObj:
 		for _, f := range o.f {
-			freezeObj(f, seen)
+			x.freezeObj(f, seen)
 		}
 	case *ArrayObj:
 		for _, f := range o.e {
-			freezeObj(f, seen)
+			x.freezeObj(f, seen)
 		}
 	}
 }
